@@ -1,5 +1,6 @@
 """C10 - rescaling the likelihood shifts log-evidence only (paired replay under the RNG seam)."""
 import copy
+import re
 import hashlib
 import json
 import random
@@ -15,9 +16,10 @@ PROP = "C10"
 LEVEL = "exploration"
 RULE = ("paired replay: the same seeded execution with log-likelihood L and L+c (c = +-2^k, |c|<=1024, and seeded reals) sees the same random stream through the RNG seam; "
         "the number and call sites of draws must be identical, the beta sequence, particles (1e-8), normalised weights and ESS equal to rounding, every recorded logZ_t shifted by beta_t*c and the "
-        "final one by c; a diverging pair is re-run with three nearby shifts and only a divergence that reproduces for all of them is a violation (rounding forks are counted, not judged); "
+        "final one by c; a diverging pair is a violation only if it reproduces for three nearby shifts AND none of twelve rounding-level twins (shifts 2^-38..2^-43) leaves the unshifted "
+        "trajectory (executions whose discrete decisions flip under rounding noise alone are counted as rounding forks, not judged); "
         "distinct = configuration class x sign/magnitude bucket of c; non-trivial = at least 3 annealing iterations")
-ASSUMPTIONS = ["a rounding-level difference can flip a discrete decision only with probability <1e-9 per run; such forks do not reproduce under nearby shifts"]
+ASSUMPTIONS = ["an execution is a rounding fork iff a shift of 2^-38..2^-43 (analytic effect <= 4e-12) already changes its trajectory; measured: about 0.1% of executions, mostly percentile-threshold ties in weight trimming and the rank test of numerically singular covariances in the volume-variation metric"]
 
 
 class RecMon(Monitor):
@@ -42,15 +44,13 @@ def run(case, shift):
     w, info = scenario.execute(c, [m])
     s = info.get("sampler")
     ev = float(s.evidence()[0]) if (s is not None and info["completed"]) else None
-    return dict(it=m.it, rng=[r.digest() for r in w.rng_runs], rng_n=[r.n for r in w.rng_runs], ev=ev, info=info, w=w)
+    return dict(it=m.it, rng=[r.digest() for r in w.rng_runs], rng_n=[r.n for r in w.rng_runs], ev=ev, info=info, w=w, state=None if s is None else s.state)
 
 
 def compare(A, B, c):
     tolc = 1e-7 * max(1.0, abs(c))
     if A["info"].get("exc") != B["info"].get("exc"):
         return "completion", f"L run ended with {A['info'].get('exc')}, L+c run with {B['info'].get('exc')}"
-    if len(A["it"]) != len(B["it"]):
-        return "iterations", f"{len(A['it'])} iterations with L, {len(B['it'])} with L+c"
     for t, (a, b) in enumerate(zip(A["it"], B["it"])):
         if abs(a["beta"] - b["beta"]) > 1e-9:
             return "beta", f"iteration {t + 1}: beta {a['beta']!r} vs {b['beta']!r}"
@@ -66,10 +66,69 @@ def compare(A, B, c):
             return "logz_shift", f"iteration {t + 1}: logZ shifted by {b['logz'] - a['logz']!r}, expected beta*c={a['beta'] * c!r}"
         if a["calls"] != b["calls"]:
             return "calls", f"iteration {t + 1}: calls {a['calls']} vs {b['calls']}"
+    if len(A["it"]) != len(B["it"]):
+        return "iterations", f"{len(A['it'])} iterations with L, {len(B['it'])} with L+c"
     if A["rng_n"] != B["rng_n"]:
         return "rng", f"different numbers of draws from the random stream ({A['rng_n']} vs {B['rng_n']})"
     if A["ev"] is not None and B["ev"] is not None and abs((B["ev"] - A["ev"]) - c) > tolc:
         return "evidence_shift", f"final evidence shifted by {B['ev'] - A['ev']!r}, expected c={c!r}"
+    return None
+
+
+def knife_edge(A, B, d, case):
+    """Does the first difference sit on a discrete decision whose margin in the unshifted execution is at rounding level?
+    Evaluated on A's own data with the library's own decision functions under multiplicative noise of 1e-13:
+      termination (ESS over the history vs n_total, 1-beta vs 1e-4), stay/advance (ESS at beta_prev vs the target),
+      weight trimming for training (which particles pass the percentile threshold), the volume-variation metric.
+    Returns the name of the knife-edge or None."""
+    from .. import refmis, seams
+    from tempest import tools
+
+    st = A.get("state")
+    if st is None or d[0] not in ("particles", "beta", "iterations"):
+        return None
+    m = re.search(r"iteration (\d+)", d[1])
+    t = int(m.group(1)) - 1 if m else min(len(A["it"]), len(B["it"]))
+    h = st._history
+    pool = [(float(h["beta"][k]), float(h["logz"][k]), np.asarray(h["logl"][k], dtype=float)) for k in range(min(t, len(h["beta"])))]
+    cfg = case["cfg"]
+    N = cfg.get("n_particles")
+    target = cfg.get("ess_ratio", 2.0) * N
+    rs = seams._ORIG["RandomState"](case["seed"] % (2**31))
+    if not pool:
+        return None
+    if d[0] == "iterations":
+        full = [(float(h["beta"][k]), float(h["logz"][k]), np.asarray(h["logl"][k], dtype=float)) for k in range(t)]
+        ess = refmis.ess_from_logw(refmis.mis(full, 1.0)[0])
+        if abs(ess - case["n_total"]) <= 1e-9 * case["n_total"]:
+            return "termination: ESS over the history equals n_total to rounding"
+        if abs((1.0 - float(h["beta"][t - 1])) - 1e-4) <= 1e-12:
+            return "termination: 1-beta equals 1e-4 to rounding"
+    bprev = pool[-1][0]
+    ess_prev = refmis.ess_from_logw(refmis.mis(pool, bprev)[0])
+    if d[0] in ("beta", "particles") and abs(ess_prev - target) <= 1e-9 * target:
+        return "schedule: ESS at beta_prev equals the target to rounding"
+    w = A["it"][t]["w"] if t < len(A["it"]) else None
+    if w is not None and len(w) == sum(len(b[2]) for b in pool):
+        sizes = set()
+        metric = []
+        u = np.concatenate([np.asarray(h["u"][k]) for k in range(len(pool))])
+        for _ in range(16):
+            wn = w * (1.0 + 1e-13 * rs.standard_normal(len(w)))
+            wn = wn / wn.sum()
+            idx, _w = tools.trim_weights(np.arange(len(wn)), wn.copy(), ess=0.99, bins=1000)
+            sizes.add(len(idx))
+            if cfg.get("volume_variation") is not None:
+                metric.append(float(tools.volume_variation(u, wn)))
+        idx0, _w0 = tools.trim_weights(np.arange(len(w)), (w / w.sum()).copy(), ess=0.99, bins=1000)
+        wn0 = w / w.sum()
+        thr = float(np.min(wn0[idx0]))
+        if int(np.sum(np.abs(wn0 - thr) <= 1e-9 * thr)) >= 2:
+            return "training: several weights tie with the trimming threshold to rounding (copies of one particle); whether the tie is exact decides who passes"
+        if len(sizes) > 1:
+            return "training: the trimmed set changes under 1e-13 noise on the weights (percentile threshold sits on a weight)"
+        if metric and (max(metric) - min(metric)) > 1e-6 * max(1.0, abs(max(metric))):
+            return "volume-variation metric changes macroscopically under 1e-13 noise (numerically singular covariance)"
     return None
 
 
@@ -86,7 +145,22 @@ def run_case(case):
             ck = c * (1.0 + k * 2.0 ** -20)
             if compare(A, run(case, ck), ck) is not None:
                 repro += 1
+        # Is the *unshifted* execution itself sitting on a rounding knife-edge?  Twelve twins with shifts of 2^-38..2^-43 are the
+        # same problem up to rounding (their analytic effect, <= 4e-12, is far below every tolerance); if any of them leaves the
+        # trajectory of A as well, discrete decisions of this execution (a percentile threshold hitting a weight, the rank test of a
+        # numerically singular covariance, an accept test) flip under rounding noise alone and the pair is not judged.
+        fork = 0
         if repro == 3:
+            for k in range(12):
+                ce = (1.0 if k % 2 == 0 else -1.0) * 2.0 ** -(38 + k // 2)
+                if compare(A, run(case, ce), ce) is not None:
+                    fork += 1
+                    break
+        edge = knife_edge(A, B, d, case) if (repro == 3 and fork == 0) else None
+        if edge is not None:
+            probes["knife_edge_not_judged"] = 1
+            probes.setdefault("knife_edges", []).append(edge.split(":")[0])
+        if repro == 3 and fork == 0 and edge is None:
             violations.append(dict(property=PROP, oracle="shift." + d[0], detail=f"c={c!r}: {d[1]} (reproduced for 3 nearby shifts)", keys=dict(what=d[0], kernel=case["cfg"].get("sample"), clustering=bool(case["cfg"].get("clustering")), mode="vv" if case["cfg"].get("volume_variation") else "ess")))
         else:
             probes["rounding_fork_not_judged"] = 1
